@@ -85,13 +85,17 @@ def run_objdump(args, timeout=120):
     return p.returncode, p.stdout, p.stderr
 
 
-def disassemble_blob(path, mode="x86-64"):
+LAYOUTS = {"default": [], "wide": ["-w"], "insn-width-8": ["--insn-width=8"], "insn-width-11": ["--insn-width=11"], "insn-width-15": ["--insn-width=15"],
+           "no-raw": ["--no-show-raw-insn"], "wide-no-raw": ["-w", "--no-show-raw-insn"]}
+
+
+def disassemble_blob(path, mode="x86-64", layout="default"):
     m = {"x86-64": "i386:x86-64", "i386": "i386", "i8086": "i8086"}[mode]
-    return run_objdump(["-D", "-b", "binary", "-m", m, "-M", "att", path])
+    return run_objdump(["-D", "-b", "binary", "-m", m, "-M", "att", *LAYOUTS[layout], path])
 
 
-def disassemble_object(path, sections=None):
-    args = ["-d", "-M", "att"]
+def disassemble_object(path, sections=None, layout="default"):
+    args = ["-d", "-M", "att", *LAYOUTS[layout]]
     for s in sections or []:
         args += ["-j", s]
     return run_objdump(args + [path])
